@@ -1,0 +1,67 @@
+//! Verification hooks. This module only exists when lrpar is compiled with
+//! `--cfg grmtools_verif`: it lets an external monitor replace the wall-clock error recovery
+//! budget with a (much larger) wall-clock budget and/or a logical step budget, and observe
+//! whether a recovery search gave up because a budget ran out. With no override set, lrpar
+//! behaves exactly as it does without the cfg.
+
+use std::{cell::Cell, time::Duration};
+
+thread_local! {
+    static BUDGET_MS: Cell<Option<u64>> = const { Cell::new(None) };
+    static STEP_BUDGET: Cell<Option<u64>> = const { Cell::new(None) };
+    static STEPS_LEFT: Cell<Option<u64>> = const { Cell::new(None) };
+    static TIMEOUTS: Cell<u64> = const { Cell::new(0) };
+    static STEPS_USED: Cell<u64> = const { Cell::new(0) };
+}
+
+/// The number of lexemes CPCT+ requires a repair sequence to parse beyond the repair.
+pub const PARSE_AT_LEAST: usize = crate::cpctplus::verif_parse_at_least();
+/// How far CPCT+ tries to parse when ranking repair sequences.
+pub const TRY_PARSE_AT_MOST: usize = crate::cpctplus::verif_try_parse_at_most();
+
+/// Override (for parses started on this thread) the wall-clock recovery budget.
+pub fn set_recovery_budget_ms(ms: Option<u64>) {
+    BUDGET_MS.with(|c| c.set(ms));
+}
+
+/// Set (for parses started on this thread) a logical budget: the total number of search-node
+/// expansions / ranking steps recovery may perform in one parse.
+pub fn set_recovery_step_budget(steps: Option<u64>) {
+    STEP_BUDGET.with(|c| c.set(steps));
+}
+
+/// How many times (on this thread) has a recovery search given up because a budget ran out?
+pub fn timeouts_observed() -> u64 {
+    TIMEOUTS.with(|c| c.get())
+}
+
+/// How many budgeted steps (on this thread) have been taken so far?
+pub fn steps_used() -> u64 {
+    STEPS_USED.with(|c| c.get())
+}
+
+/// Called once at the start of each parse.
+pub(crate) fn budget_or(default: Duration) -> Duration {
+    STEPS_LEFT.with(|c| c.set(STEP_BUDGET.with(|b| b.get())));
+    match BUDGET_MS.with(|c| c.get()) {
+        Some(ms) => Duration::from_millis(ms),
+        None => default,
+    }
+}
+
+/// Called wherever the recovery code polls its wall-clock deadline.
+pub(crate) fn step_budget_exhausted() -> bool {
+    STEPS_USED.with(|c| c.set(c.get() + 1));
+    STEPS_LEFT.with(|c| match c.get() {
+        None => false,
+        Some(0) => true,
+        Some(n) => {
+            c.set(Some(n - 1));
+            false
+        }
+    })
+}
+
+pub(crate) fn note_timeout() {
+    TIMEOUTS.with(|c| c.set(c.get() + 1));
+}
